@@ -1,5 +1,6 @@
 import Pyunicorn.Model.Proto
 import Pyunicorn.Model.Cross
+import Pyunicorn.Model.CrossBetw
 /-! Line-protocol driver for C11.
 
 Request: `<measure> <directed 0/1> <N> <A> <w> <D> <LA> <L1> <L2> [<norm>]`
@@ -41,7 +42,24 @@ def allNames : List String := [
   "nsi_internal_degree", "nsi_cross_mean_degree", "nsi_cross_edge_density",
   "nsi_cross_local_clustering", "nsi_internal_local_clustering", "nsi_cross_global_clustering",
   "nsi_cross_transitivity", "nsi_cross_closeness_centrality",
-  "nsi_internal_closeness_centrality", "nsi_cross_average_path_length"]
+  "nsi_internal_closeness_centrality", "nsi_cross_average_path_length",
+  "cross_betweenness", "internal_betweenness", "nsi_cross_betweenness"]
+
+/-- the definition layer of the betweenness delegates (exponential-time enumeration of shortest
+paths: requested for a sample of the cases only, request `betwdef …`) -/
+def defNames : List String :=
+  ["cross_betweenness", "cross_betweenness_def", "internal_betweenness", "internal_betweenness_def",
+   "nsi_cross_betweenness", "nsi_cross_betweenness_def"]
+
+/-- the BFS distances of `Pyunicorn.Net.dist`, tabulated once per request -/
+def distTable (N : Nat) (A : Adj) : Pyunicorn.NetBetw.DistFn :=
+  let arr := ((List.range N).map fun i => (Pyunicorn.Net.bfs N A i).toArray).toArray
+  fun i j => (arr.getD i #[]).getD j none
+
+/-- the three betweenness delegates: `AssertionError` of `Network._nsi_betweenness` on directed
+networks with a link -/
+def betwAnswer (directed : Bool) (N : Nat) (A : Adj) (r : Unit → List Rat) : String :=
+  if !betwAssertHolds directed N A then "raise:AssertionError" else showRats (r ())
 
 def measureOf (toks : List String) : String :=
   match toks with
@@ -126,18 +144,34 @@ def measureOf (toks : List String) : String :=
         let p := nsiCrossAPLParts N D W L1 L2
         if p.2 = 0 then (if p.1 = 0 then "nan" else if p.1 > 0 then "inf" else "-inf")
         else showOpt "nan" (nsiCrossAPL N D W L1 L2)
+    | "cross_betweenness" => betwAnswer directed N A fun _ => crossBetweenness N A L1 L2
+    | "internal_betweenness" => betwAnswer directed N A fun _ => internalBetweenness N A L1
+    | "nsi_cross_betweenness" => betwAnswer directed N A fun _ => nsiCrossBetweenness N A W L1 L2
+    | "cross_betweenness_def" => betwAnswer directed N A fun _ =>
+        Pyunicorn.NetBetw.nsiBetweennessDef N A (fun _ => 1) (distTable N A) (srcMask N L1) L2
+    | "internal_betweenness_def" => betwAnswer directed N A fun _ =>
+        Pyunicorn.NetBetw.nsiBetweennessDef N A (fun _ => 1) (distTable N A) (srcMask N L1) L1
+    | "nsi_cross_betweenness_def" => betwAnswer directed N A fun _ =>
+        Pyunicorn.NetBetw.nsiBetweennessDef N A W (distTable N A) (srcMask N L1) L2
     | _ => "bad-request"
   | _ => "bad-request"
 
 /-- `net <directed> <N> <A> <w> <D>`: the single-network methods of `Network` the whole-network
 limits refer to (`n_links`, `link_density`, `nsi_degree`, `nsi_local_clustering`,
 `nsi_global_clustering`, `nsi_transitivity`, `nsi_closeness`, `nsi_average_path_length`) -/
-def netAnswer (dir n a w d : String) : String :=
+def showXR : Option XR → String
+  | none => "raise:ZeroDivisionError"
+  | some (.val r) => showRat r
+  | some .inf => "inf"
+  | some .nan => "nan"
+
+def netAnswer (dir n a w d : String) (dw : String := "-") : String :=
   let directed := dir != "0"
   let N := n.toNat!
   let A : Adj := matFn (boolMat a) false
   let W := vecFn (rats w)
   let D : Dist := matFn (optRatMat d) none
+  let Dw : Dist := matFn (optRatMat dw) none
   let R := List.range N
   let ni := "raise:NotImplementedError"
   join [
@@ -150,7 +184,14 @@ def netAnswer (dir n a w d : String) : String :=
       (if directed then ni else showOpt "nan" (netNsiGlobalClustering N A W)),
     "nsi_transitivity=" ++ (if directed then ni else showOpt "nan" (netNsiTransitivity N A W)),
     "nsi_closeness=" ++ showOptRats (R.map (netNsiCloseness N D W)) "inf",
-    "nsi_average_path_length=" ++ showOpt "nan" (netNsiAPL N D W)] "|"
+    "nsi_average_path_length=" ++ showOpt "nan" (netNsiAPL N D W),
+    "global_efficiency=" ++ showXR (netGlobalEfficiency N D),
+    "global_efficiency_w=" ++ showXR (netGlobalEfficiency N Dw),
+    "closeness_w=" ++ showRats (R.map (Pyunicorn.Net.closenessW N Dw)),
+    "closeness_conv=" ++ showRats (R.map (closenessConv ((N : Rat) - 1) N Dw)),
+    "interregional_betweenness=" ++ betwAnswer directed N A (fun _ => netInterregionalBetweenness N A),
+    "nsi_betweenness=" ++ betwAnswer directed N A (fun _ => netNsiBetweenness N A W),
+    "path_lengths=" ++ join (R.map fun i => showOptRats (R.map fun j => distQ N A i j)) ";"] "|"
 
 /-- `normprod <m> <k,k,…>`: `k·(k−1)` evaluated in the signed integer type of range `[-m, m)` -/
 def normProdAnswer (m ks : String) : String :=
@@ -161,8 +202,11 @@ def normProdAnswer (m ks : String) : String :=
 def answer (toks : List String) : String :=
   match toks with
   | "all" :: args => join (allNames.map fun nm => nm ++ "=" ++ measureOf (nm :: args)) "|"
+  | "betwdef" :: args => join (defNames.map fun nm => nm ++ "=" ++ measureOf (nm :: args)) "|"
   | ["net", dir, n, a, w, d] => netAnswer dir n a w d
+  | ["net", dir, n, a, w, d, dw] => netAnswer dir n a w d dw
   | ["normprod", m, ks] => normProdAnswer m ks
+  | ["sumw", m, xs] => toString (sumW m.toInt! ((splitTok xs ",").map fun t => t.toInt!))
   | _ => measureOf toks
 
 def main : IO Unit := runDriver answer
